@@ -80,6 +80,15 @@ Section Loops.
   Definition timedjoin := timed EBUSY.
 End Loops.
 
+(** [myth_nanosleep_body(req, rem)] with its two pointer arguments.  The current code reads [*req] (tv_sec, tv_nsec for
+    the three EINVAL tests, then the whole object in [myth_timespec_add]) and never stores through [rem]
+    ([(void)rem;]: a user-level thread is not interrupted in its sleep, no remaining time is ever reported).  Memory is
+    a map from object identities to timespecs; [preq] is the request object, [prem] is NULL ([None]), another object,
+    or [preq] itself (the idiom [nanosleep(&ts, &ts)]).  Result: the outcome and the memory after the call. *)
+Definition nanosleep_mem (clk : nat -> ts) (fuel : nat) (m : nat -> ts) (preq : nat) (prem : option nat)
+  : outcome * (nat -> ts) :=
+  (nanosleep clk fuel (m preq), m).
+
 (** list-driven front ends used by the correspondence driver: the clock and
     the attempt oracle are finite scripts; past their end the last clock value
     repeats and attempts fail. *)
